@@ -36,7 +36,7 @@ fn real_vs_stub() -> Value {
     })
 }
 
-const ST_PROPS: [&str; 10] = ["C01", "C03", "C04", "C05", "C08", "C10", "C13", "C16", "C17", "C20"];
+const ST_PROPS: [&str; 11] = ["C01", "C03", "C04", "C05", "C08", "C10", "C13", "C16", "C17", "C18", "C20"];
 const MT_PROPS: [&str; 4] = ["C02", "C07", "C12", "C13"];
 
 fn mt_flavour(prop: &str) -> MtFlavour {
@@ -113,6 +113,7 @@ pub fn plan(prop: &str, tier: &str) -> Option<Plan> {
         "C13" => base(200_000, 3_000_000, "histories over clone / alloc* / to-owned / detach / drop in any order incl. dropping the original first, seed-chosen teardown order; release-once accounting from snapshots, refs(), drop counter, teardown callback count, remove_on_drop file existence. Non-trivial = at least one owned handle outlived an arena value and at least 3 non-detached releases; distinct by abstract state sequence hash"),
         "C16" => base(200_000, 3_000_000, "configuration sweep (reserved 0..=4096 x unify x backend x flavour x capacities around the prefix) plus histories on the three backends side by side; see coverage.extra for the sweep. Non-trivial histories = at least 4 allocations and one release; distinct by abstract state sequence hash"),
         "C17" => base(240_000, 4_000_000, "histories with rewind(pos) at arbitrary points, pos boundary-dense over u32 / i64; cursor vs i128 reference clamp, nothing else changes; clear() checked in place and (differentially) against a fresh arena. Non-trivial = at least one rewind whose raw target fell outside [data_offset, capacity] and one inside; distinct by abstract state sequence hash"),
+        "C18" => base(200_000, 3_000_000, "unsync::Arena histories (Vec / anon / file, unify on/off, free list and live detached data) with truncate(n), n boundary-dense in 0..=4*capacity, repeated; capacity = max(n, allocated), header / free list / bytes below allocated unchanged, later allocations judged by the per-step oracles against the new capacity; read-only sessions must refuse. Non-trivial = at least one growing and one shrinking truncate with a non-empty free list or live data; distinct by abstract state sequence hash"),
         "C20" => base(240_000, 4_000_000, "histories with discard_freelist / increase_discarded / set_minimum_segment_size anywhere; per-step accounting from (discarded, snapshot) before/after, discarded ranges never handed out again. Non-trivial = discard_freelist on a list with >= 2 segments and at least one too-small release; distinct by abstract state sequence hash"),
         "C02" => base(60_000, 1_500_000, "seeded schedules (random / sticky / PCT / targeted-preemption strategies, spurious weak-CAS failures) of 2..4 threads x 1..12 operations (alloc_bytes / alloc_aligned_bytes / alloc<T> / owned variants / drop / keep-for-ever) on clones of one sync::Arena after a single-threaded set-up that fills the arena and frees a random subset; oracles inside scheduling steps: new range in data area and disjoint from all live ranges, all live bytes equal their shadow after every value-changing access and before every arena zeroing, every intercepted address inside arena/header. Non-trivial = a list operation (slow-path allocation or release) of one thread overlapped in time with one of another thread, or a CAS failed; distinct = distinct hash of the normalised access trace (thread, location, op, outcome)*"),
         "C07" => base(60_000, 1_500_000, "schedules as C02 (Optimistic / Pessimistic) plus discard_freelist and threads that keep or detach allocations for ever or finish early; busy-wait detector parks a thread after 256 accesses without any value-changing write by anybody; verdicts: all unfinished threads parked and a 4096-step-per-thread round-robin confirmation without change (V1), solo thread > 20000 steps in one call (V2), no call completed in 50000 steps (V3). Non-trivial / distinct as C02"),
@@ -138,6 +139,7 @@ fn summarise_st(prop: &str, spec: &CaseSpec, out: &CaseOut) -> RunSummary {
         "C13" => s.releases >= 3 && s.clones >= 1,
         "C16" => s.allocs_ok >= 4 && s.releases >= 1,
         "C17" => s.rewinds >= 2 || s.clears >= 1,
+        "C18" => s.truncates >= 2 && (s.max_nodes >= 1 || s.max_live >= 2),
         "C20" => s.releases_discarded >= 1 && s.max_nodes >= 2,
         _ => s.ops >= 3,
     };
